@@ -577,7 +577,10 @@ func (group *Group) writev2RtmpSubSessions(bs net.Buffers) {
 		if session.IsFresh || session.ShouldWaitVideoKeyFrame {
 			continue
 		}
-		_ = session.Writev(bs)
+		// net.Buffers的WriteTo会消费(清空)传入的切片元素，多个session不能共用同一个切片
+		sbs := make(net.Buffers, len(bs))
+		copy(sbs, bs)
+		_ = session.Writev(sbs)
 	}
 }
 
